@@ -10,6 +10,7 @@ import (
 	"verif/sa/internal/ai"
 	"verif/sa/internal/oracle"
 	"verif/sa/internal/report"
+	"verif/sa/internal/world"
 )
 
 func init() {
@@ -240,6 +241,7 @@ func checkC06(c *Ctx) *report.Result {
 		}
 		r.Ob("B-ones", iv != nil && len(bad) == 0 && len(ev.Undecided) == 0, fmt.Sprintf("%s (%04X) unused bits from any state", reg.Name, reg.Addr), hposOf(c, ev), fmt.Sprintf("reads %s; documented mask %02X always 1: %s %v", ai.ValueString(ev.Result), reg.Ones, strings.Join(bad, "; "), ev.Undecided))
 	}
+	c.checkLatchOwnership(r)
 	r.Rule("B-oamplain", "OAM is plain memory outside the OAM-bug window: the window flag is closed whenever the LCD is off or the PPU is outside mode 2 (rules O-pair / O-arm of C17 re-stated)")
 	adopt(r, c.sibling("C17"), map[string]string{"O-pair": "B-oamplain", "O-arm": "B-oamplain"}, "with the window left open a CPU access to FE00-FEFF rewrites other OAM rows, so OAM does not read back what was written")
 	return r
@@ -408,4 +410,106 @@ func (c *Ctx) checkFEA0(r *report.Result, ev *DecEval, name string, write bool) 
 		cv, isc = iv.Const()
 	}
 	r.Ob("A-void", isc && cv == 0, name+" FEA0-FEFF reads 0", "", "reads "+ai.ValueString(ev2.Result)+" while no DMA runs; documented 00")
+}
+
+// checkLatchOwnership: the cells a register's write handler fills from the written value and its read handler
+// reads back (the register's latch) are stored by nothing else - no write to another address, no read, no
+// per-cycle step, no CPU row. IF is exempt (the hardware sets its bits). Without this a register reads back
+// the last written value only until the other writer runs, which a write-then-read composition cannot see.
+func (c *Ctx) checkLatchOwnership(r *report.Result) {
+	r.Rule("B-own", "the latch cells of IE, TAC, STAT (enables), LCDC, SCY, SCX, LYC, WY, WX, BGP, OBP0, OBP1, DMA and JOYP (select bits) are stored only under the register's own write handler: by no write to another address and by no read, step or CPU row")
+	type latch struct {
+		reg     oracle.IOReg
+		cells   map[string]bool
+		allowed map[string]bool
+	}
+	var latches []*latch
+	dec := c.decoderFn(true)
+	for _, reg := range oracle.IORegs() {
+		if reg.Writable == 0 || reg.NoStore || reg.Name == "IF" {
+			continue
+		}
+		name := fmt.Sprintf("%s (%04X)", reg.Name, reg.Addr)
+		res, wev, rev := c.readBack(reg.Addr, nil, 0)
+		if res == nil || rev == nil {
+			r.Fail("undecided", "B-own", name, "", "write then read could not be composed")
+			continue
+		}
+		l := &latch{reg: reg, cells: map[string]bool{}, allowed: map[string]bool{}}
+		for cell, v := range wev.Stores {
+			if rev.Loads[cell] && ai.DepsOf(v).Has(wev.ValSym) {
+				l.cells[cell] = true
+			}
+		}
+		if dec != nil {
+			l.allowed[fnName(dec)] = true
+		}
+		for _, f := range wev.Callees {
+			l.allowed[fnName(f)] = true
+		}
+		if len(l.cells) == 0 {
+			r.Fail("unresolved", "B-own", name, hposOf(c, wev), "no cell is both filled from the written value and read back")
+			continue
+		}
+		latches = append(latches, l)
+	}
+	overlaps := func(l *latch, label string) bool {
+		if l.cells[label] {
+			return true
+		}
+		for cell := range l.cells {
+			if strings.HasPrefix(cell, label+".") || strings.HasPrefix(cell, label+"[") || strings.HasPrefix(label, cell+".") || strings.HasPrefix(label, cell+"[") {
+				return true
+			}
+		}
+		return false
+	}
+	// (1) writes to every other address
+	for _, iv := range c.elementaryIntervals() {
+		w := c.evalDecoder(true, iv[0], iv[1], nil, nil)
+		for _, l := range latches {
+			if iv[0] <= l.reg.Addr && l.reg.Addr <= iv[1] {
+				continue
+			}
+			var hit []string
+			for cell := range w.Stores {
+				if overlaps(l, cell) {
+					hit = append(hit, cell)
+				}
+			}
+			sort.Strings(hit)
+			if len(hit) > 0 {
+				r.Ob("B-own", false, fmt.Sprintf("write %04X-%04X leaves the latch of %s alone", iv[0], iv[1], l.reg.Name), hposOf(c, w), fmt.Sprintf("stores %v", hit))
+			}
+			r.Instances["B-own"]++
+		}
+	}
+	// (2) everything else that runs: reads, per-cycle steps, CPU rows
+	viol := map[string]string{}
+	n := 0
+	c.evalAllEntries(ai.Hooks{
+		Store: func(_ *ai.State, at ssa.Instruction, p *ai.Ptr, keys []ai.CellKey, _ ai.Value, _ bool) {
+			if p == nil || p.Obj.ID > c.W.NObjInit {
+				return
+			}
+			for _, k := range keys {
+				label := c.cellLabel(ai.CellKey{Obj: k.Obj, Path: ai.NormPath(k.Path)})
+				for _, l := range latches {
+					if !overlaps(l, label) {
+						continue
+					}
+					n++
+					fn := fnName(outerFn(at.Parent()))
+					if !l.allowed[fn] && !c.onStack(l.allowed) {
+						viol[fmt.Sprintf("%s stores %s, the latch of %s", fn, label, l.reg.Name)] = c.pos(at)
+					}
+				}
+			}
+		},
+	}, func(*world.Entry, *ai.State) {})
+	for k, pos := range viol {
+		r.Ob("B-own", false, k, pos, "a register's latch may be stored only under its own write handler: otherwise the register stops reading back the last value written")
+	}
+	r.Ob("B-own", n > 0 && len(latches) >= 12, "stores to register latches examined over every run-phase entry", "", fmt.Sprintf("%d stores, %d registers with a latch", n, len(latches)))
+	r.Instances["B-own"] += n
 }
